@@ -18,8 +18,8 @@ from pathlib import Path
 
 VERIF = Path(__file__).resolve().parent.parent
 REPO = Path(os.environ.get("KVERIF_REPO", "/repo"))
-EVIDENCE_DIR = VERIF / "evidence"
-REPLAY_DIR = VERIF / "replay"
+EVIDENCE_DIR = Path(os.environ.get("KVERIF_EVIDENCE", str(VERIF / "evidence")))
+REPLAY_DIR = Path(os.environ.get("KVERIF_REPLAY", str(VERIF / "replay")))
 KNOWN_FINDINGS = VERIF / "known_findings.json"
 CACHE_DIR = Path(os.environ.get("KVERIF_CACHE", str(VERIF / ".cache")))
 
@@ -156,7 +156,7 @@ def match_known(f: Finding, known: list[dict]) -> dict | None:
 # -- evidence / replay ----------------------------------------------------------------
 
 def write_replay(f: Finding) -> Path:
-    REPLAY_DIR.mkdir(exist_ok=True)
+    REPLAY_DIR.mkdir(parents=True, exist_ok=True)
     p = REPLAY_DIR / f"{f.property}-{f.rule}-{f.keyhash()}.json"
     p.write_text(json.dumps({
         "property": f.property, "rule": f.rule, "construct": f.construct, "stmt": norm_ws(f.stmt),
@@ -167,7 +167,7 @@ def write_replay(f: Finding) -> Path:
 
 
 def write_evidence(rep: Report, status: str, violations: int, known_hits: list[str], cmd: str, error: str = "") -> None:
-    EVIDENCE_DIR.mkdir(exist_ok=True)
+    EVIDENCE_DIR.mkdir(parents=True, exist_ok=True)
     distinct = len(rep._instances)
     rules_table = [
         {"id": r.rid, "rule": r.desc, "instances": r.instances, "floor": r.floor, "violations": r.violations,
@@ -227,9 +227,19 @@ def run_property(pid: str, fn, tier: str, seed: int, only_key: tuple | None = No
     rep.assumptions = list(COMMON_ASSUMPTIONS)
     rep.trusted_base = list(COMMON_TRUSTED)
     cmd = f"./vcheck {pid} --tier {tier}"
+    floor_error = None
     try:
         fn(rep)
-        rep.enforce_floors()
+        try:
+            rep.enforce_floors()
+        except AnalysisError as e:
+            # a concrete finding is evidence on its own; a missed floor only matters when the run would
+            # otherwise pass (a rule that lost its instances must not turn into a silent pass)
+            known0 = load_known_findings()
+            if any(match_known(f, known0) is None for f in rep.findings):
+                floor_error = str(e)
+            else:
+                raise
     except AnalysisError as e:
         msg = norm_ws(str(e))
         print(f"ANALYSIS-ERROR property={pid} {msg}")
@@ -262,6 +272,9 @@ def run_property(pid: str, fn, tier: str, seed: int, only_key: tuple | None = No
             print(f"      construct: {norm_ws(f.stmt)[:300]}")
         print(f"VIOLATION property={pid} replay={p}")
     status = "violation" if violations else "pass"
+    if floor_error:
+        rep.note("instance floor missed (reported because the run found violations anyway): " + norm_ws(floor_error))
+        print(f"  note: {norm_ws(floor_error)[:200]}")
     write_evidence(rep, status, len(violations), known_hits, cmd)
     summary = ", ".join(f"{r.rid}={r.instances}" for r in rep.rules.values())
     print(f"{pid} [{tier}] {status}: {rep.obligations} obligations over {len(rep.rules)} rules "
